@@ -9,6 +9,7 @@
 #define _GNU_SOURCE
 #include <plibsys.h>
 #include "hout.h"
+#include "netns.h"
 #include <pthread.h>
 #include <sys/wait.h>
 #include <unistd.h>
@@ -267,7 +268,7 @@ int main(int argc, char **argv)
 {
     int i, only = -1, pairs = 0; long total = 0, nontriv = 0;
     if (argc < 2) return 2;
-    hout_open();
+    verif_private_netns(); hout_open();
     snprintf(scratch, sizeof scratch, "%s", getenv("VERIF_SCRATCH_DIR") ? getenv("VERIF_SCRATCH_DIR") : "/tmp");
     snprintf(ini_path, sizeof ini_path, "%s/c18.ini", scratch);
     snprintf(ipcname, sizeof ipcname, "vf18_%d", (int)getpid());
